@@ -1190,6 +1190,8 @@ class Interp:
                 v = self.call_method(m, "__enter__", [])
             elif isinstance(m, npmodel.NullContext):
                 v = m.enter()
+            elif hasattr(m, "__enter__") and type(m).__module__.startswith("fverif"):
+                v = m.__enter__()
             else:
                 raise self.undecided("with over %r" % (m,))
             if item.optional_vars is not None:
@@ -1201,8 +1203,10 @@ class Interp:
             for m in reversed(mgrs):
                 if isinstance(m, Instance):
                     self.call_method(m, "__exit__", [None, None, None])
-                else:
+                elif isinstance(m, npmodel.NullContext):
                     m.exit()
+                else:
+                    m.__exit__(None, None, None)
 
     def s_FunctionDef(self, st, env, module):
         fn = self.make_function(st, env, module, st.name if not self._cls_stack else self._cls_stack[-1][0] + "." + st.name)
